@@ -334,7 +334,14 @@ impl Package {
 
                 // Check if the export name is an interface name
                 let (export_name, kind) = world.exports.get_index(0).unwrap();
-                match ComponentName::new(export_name, 0).unwrap().kind() {
+                // Use the features the package was validated with (nested namespaces
+                // are otherwise rejected here although the validator accepted them)
+                let Ok(export_name) =
+                    ComponentName::new_with_features(export_name, 0, WasmFeatures::all())
+                else {
+                    continue;
+                };
+                match export_name.kind() {
                     ComponentNameKind::Interface(_) => {}
                     _ => continue,
                 }
